@@ -28,8 +28,8 @@ THEOREMS = {
             "C08_three_files", "C08_missing_dbf", "C08_open_after_write"],
     "C20": ["C20_to_geo", "C20_polygon_grouping", "C20_back", "C20_from_geo", "C20_refusals", "C20_dims"],
     "C03": ["C03_record", "C03_decodes_conformant"],
-    "C09": ["C09_finalize_irrelevant", "C09_files", "C09_finalize_complete", "C09_clean_finalize_silent"],
-    "C10": ["C10_reject", "C10_erase"],
+    "C09": ["C09_finalize_irrelevant", "C09_files", "C09_finalize_complete", "C09_clean_finalize_silent", "C09_bulk_ending"],
+    "C10": ["C10_reject", "C10_erase", "C10_bulk_is_calls"],
     "C18": ["C18_size", "C18_record_len", "C18_record_bytes"],
     "C19": ["C19_decode_iff", "C19_image", "C19_injective", "C19_table", "C19_predicates"],
 }
